@@ -192,14 +192,14 @@ def _case(dc, sc, res, rng, kinds, fanout, label, spelling):
     journal = gen.pick(rng, ['wal', 'wal', 'truncate', 'persist', 'delete'])
     res.count('journal_mode_' + journal)
     if fanout:
-        f = dc.FanoutCache(d, shards=3, disk_min_file_size=T, sqlite_journal_mode=journal)
+        f = dc.FanoutCache(d, shards=3, disk_min_file_size=T, **common.journal_kw(journal))
         items = populate(f)
         f.close()
         shard_dirs = [os.path.join(d, '%03d' % i) for i in range(3)]
         target = gen.pick(rng, [s for s in shard_dirs if [r for r in table(s)[0] if r['filename']]] or shard_dirs)
         res.count('fanout_cases')
     else:
-        c = dc.Cache(d, disk_min_file_size=T, sqlite_journal_mode=journal)
+        c = dc.Cache(d, disk_min_file_size=T, **common.journal_kw(journal))
         items = populate(c)
         c.close()
         target = d
